@@ -1431,6 +1431,16 @@ package main
 //@   ensures [C20] del_id_kept: in != nil ==> res != nil && int(res.DelId) == in.DelId && len(res.DelSeq) == len(in.DelSeq)
 //@   ensures [C20] absent_stays_absent: in == nil ==> res == nil
 
+// (the same list read back - by a plugin or a peer node - is the list that was sent)
+//@ func pbServerCredsDeserialize(in []*pbx.ServerCred) (out []*MsgCredServer)
+//@   modifies nothing
+//@   ensures [C20] same_length: len(out) == len(in)
+//@   loop 1
+//@     invariant [C20] so_far: 0 <= #idx && #idx <= len(in) && len(out) == len(in)
+//@     iterates [C20] every_field_kept: in[prev(#idx)] != nil ==> out[prev(#idx)] != nil && out[prev(#idx)].Method == in[prev(#idx)].Method && out[prev(#idx)].Value == in[prev(#idx)].Value && out[prev(#idx)].Done == in[prev(#idx)].Done
+//@   nopanic
+//@   safe
+
 // C20: a presence notice keeps its actor and its target apart on the wire.
 //@ func pbServPresSerialize(pres *MsgServerPres) (r *pbx.ServerMsg_Pres)
 //@   requires [C20] pres != nil
